@@ -707,7 +707,19 @@ def _join_loop_form(facts, t, vf, body):
             other.append(bb)
     if other or not sites:
         return False
-    return lp.must(Reach(facts, body, Evaluator(facts)), sites)
+    if lp.must(Reach(facts, body, Evaluator(facts)), sites):
+        return True
+    # a clock may be skipped when it is empty (joining it changes nothing): decided with `item clock is empty` as the assumption
+
+    def empty_atom(t):
+        if is_call(t, 'is_empty', self_adt='VClock') and len(t[2]) == 1:
+            x = versionless(t[2][0])
+            src = as_item(x[1]) if x[0] == 'field' and x[2] == '0' else None
+            if src is not None and versionless(src) == versionless(lp.src):
+                return 'empty'
+        return None
+    ev_ = Evaluator(facts, bool_atom=empty_atom, assumption={'empty': False})
+    return lp.must(Reach(facts, body, ev_), sites) and 'empty' in ev_.hits
 
 
 def _join_of_vals(facts, t, vf, body=None):
